@@ -178,6 +178,8 @@ def uni_ops(p):
     if us:
         yield "vertex V u=%s" % ",".join(us)
         yield "vertex SV u=%s,%s" % (us[0], us[0])
+        yield "vertex V u=%s uf=%d" % (",".join(us), len(us) - 1)      # the `universes=` iterable raises part-way
+        yield "vertex V u=%s uf=%d" % (",".join(us), len(us))
         yield "vertex V u=%s x=7" % us[-1]          # caller-supplied uids, equal for several objects
         yield "vertex V x=7"
         yield "universe x=7"
@@ -225,7 +227,8 @@ def enumerate_histories(real, seed_lines, pool, opsfn, depth, audit=("obs",)):
     yield from rec(base, pool, depth)
 
 
-def random_history(rng, real, opsfn, length, audit=("obs",), nverts=(2, 5), extra=None, attr_values=None, reset_line="reset"):
+def random_history(rng, real, opsfn, length, audit=("obs",), nverts=(2, 5), extra=None, attr_values=None, reset_line="reset",
+                   reload_p=0.04):
     """one random history, generated while running the real code (for exact pools).
     Returns (lines, real_answers)."""
     lines, outs = [], []
@@ -252,6 +255,11 @@ def random_history(rng, real, opsfn, length, audit=("obs",), nverts=(2, 5), extr
             cands += list(extra(p, rng))
         if not cands:
             break
+        if reload_p and rng.random() < reload_p:
+            # the caller saves the graph and continues on the loaded copy (pickle / deepcopy / nrpickler in turn)
+            do("reload")
+            for a in audit:
+                do(a)
         do(rng.choice(cands))
         for a in audit:
             do(a)
